@@ -46,5 +46,16 @@ pub fn link_is_in_range(row: i32, column: i32, range: &Area) -> (r: bool)
 //@end
 }
 
+/// get_external_formula_updates_for_cut, phase 1: a formula cell is left out of the "outside observers" exactly when it lies
+/// inside the cut area ON THE CUT SHEET (a cell at the same coordinates of another sheet is an observer like any other)
+pub fn is_inside_cut_area(ws_idx_u32: u32, row: i32, col: i32, area: &Area) -> (r: bool)
+    requires area_small(area), small(row as int), small(col as int)
+    ensures r == in_area(ws_idx_u32, row as int, col as int, area)
+{
+//@fragment base/src/cut_paste.rs Model::get_external_formula_updates_for_cut `// skip cells inside the area being moved` ..< `{`
+//@rewrite `if ` => ``
+//@end
+}
+
 } // verus!
 fn main() {}
